@@ -141,11 +141,12 @@ bool read_and_compare(ReadStream &r, const Held &h)
   case A15_F32: { float x; r >> x; return std::memcmp(&x, &h.f32, 4) == 0; }
   case A15_F64: { double x; r >> x; return std::memcmp(&x, &h.f64, 8) == 0; }
   case A15_POD: { Pod x; r >> x; return x == h.pod; }
-  case A15_STRING: { std::string x; r >> x; return x == h.str; }
-  case A15_CSTRING: { std::string x; r >> x; return x == std::string(h.str.c_str()); }
-  case A15_VEC_STRING: { std::vector<std::string> x; r >> x; return x == h.vs; }
-  case A15_VEC_VEC_INT: { std::vector<std::vector<int>> x; r >> x; return x == h.vvi; }
-  default: { std::vector<int> x; r >> x; return x == h.vi; }  // vectors and all array wrappers share the framing
+  // (every other destination already holds a value: reading replaces it)
+  case A15_STRING: { std::string x; if (h.u64 & 1) x = "previous content of the destination"; r >> x; return x == h.str; }
+  case A15_CSTRING: { std::string x; if (h.u64 & 1) x = "old"; r >> x; return x == std::string(h.str.c_str()); }
+  case A15_VEC_STRING: { std::vector<std::string> x; if (h.u64 & 1) x.assign(3, "old"); r >> x; return x == h.vs; }
+  case A15_VEC_VEC_INT: { std::vector<std::vector<int>> x; if (h.u64 & 1) x.assign(2, std::vector<int>(2, 7)); r >> x; return x == h.vvi; }
+  default: { std::vector<int> x; if (h.u64 & 1) x.assign(5, -1); r >> x; return x == h.vi; }  // vectors and all array wrappers share the framing
   }
 }
 
